@@ -1,7 +1,7 @@
 SPECIFICATION GenSpec
 CONSTANTS
   Users = {"u1", "u2", "evrevert", "evshort", "evnokey"}
-  MinUnitsC = {"maa", "mbb"}
+  MinUnitsC = {"maa", "mbb", "ibc/x1"}
   RecordHist = TRUE
   Owners = {}
   Symbols = {}
@@ -21,7 +21,7 @@ CONSTANTS
   MintNum = 1
   MintDen = 2
   TaxNums = {2}
-  Acts = {"SwapFee", "Deploy", "ToERC20", "FromERC20", "Hook", "SetParams", "Mint", "Burn"}
+  Acts = {"SwapFee", "Deploy", "ToERC20", "FromERC20", "Hook", "SetParams", "Mint", "Burn", "Upgrade"}
   Prologue = "erc"
   PScaleA = 1
   PScaleB = 0
@@ -34,10 +34,10 @@ CONSTANTS
   SwapAmounts = {1, 3, 7, 10, 20}
   MaxRej = 5
   Sample = TRUE
-  InitIbc = 0
-  DeployExtra = {}
-  HookVariants = {}
-  UpgradeTo = {}
+  InitIbc = 3
+  DeployExtra = {"stake", "ibc/x1", "nope"}
+  HookVariants = {"unbound", "topics2", "otherevent", "badto", "baddata"}
+  UpgradeTo = {"u1", "x1", "evrevert"}
   MathMaxIn = 0
   MathScales = {0}
 CONSTRAINT GenConstraint
